@@ -204,6 +204,9 @@ fn start_watchdog() {
                                     ("function".to_string(), J::s(model::cur_global())),
                                 ];
                                 o.extend(fields.iter().cloned());
+                                if !model::phase_global().is_empty() {
+                                    o.push(("while_calling".to_string(), J::s(model::phase_global())));
+                                }
                                 o.push((
                                     "violation".to_string(),
                                     J::Str(format!(
